@@ -124,6 +124,8 @@ func c12RoundTrip(rc *RC) {
 		}
 		return xmpp.NewNegotiator(cf)
 	}
+	// a server builds its feature values once and uses them for every connection
+	srvNeg := neg(sLang, xmpp.SASLServer(func(*sasl.Negotiator) bool { return true }, sasl.Plain), bindF)
 	var cs, ss *xmpp.Session
 	var cerr, serr error
 	cd, sd := false, false
@@ -132,7 +134,7 @@ func c12RoundTrip(rc *RC) {
 		cd = true
 	})
 	rc.Spawn("server", func() {
-		ss, serr = xmpp.ReceiveSession(ctx, sc, xmpp.Secure, neg(sLang, xmpp.SASLServer(func(*sasl.Negotiator) bool { return true }, sasl.Plain), bindF))
+		ss, serr = xmpp.ReceiveSession(ctx, sc, xmpp.Secure, srvNeg)
 		sd = true
 	})
 	rc.S.Run(func() bool { return cd && sd }, 60000, 2*time.Minute)
@@ -205,6 +207,38 @@ func c12RoundTrip(rc *RC) {
 		return // the websocket framing has no enclosing element; bind is checked on TCP framing
 	}
 	var reqID, reqRes string
+	firstAssigned := ""
+	defer func() {
+		// a second connection of the same account served with the same feature values gets a fresh resource
+		if firstAssigned == "" || cerr != nil || serr != nil || !ch.Chance("workload", 1, 2) {
+			return
+		}
+		cc2, sc2 := rc.Net.Pipe("cli2", "srv2")
+		rc.OnCleanup(func() { cc2.Close(); sc2.Close() })
+		var c2err, s2err error
+		c2d, s2d := false, false
+		rc.Spawn("client2", func() {
+			_, c2err = xmpp.NewSession(ctx, origin.Domain(), origin, cc2, xmpp.Secure, neg(cLang, xmpp.SASL("", "pass", sasl.Plain), xmpp.BindResource()))
+			c2d = true
+		})
+		rc.Spawn("server2", func() {
+			_, s2err = xmpp.ReceiveSession(ctx, sc2, xmpp.Secure, srvNeg)
+			s2d = true
+		})
+		rc.S.Run(func() bool { return c2d && s2d }, 60000, 2*time.Minute)
+		if !c2d || !s2d || c2err != nil || s2err != nil {
+			rc.Failf("C12.c2", "second-handshake-failed", "second session with the same server feature values: client %v, server %v", c2err, s2err)
+			return
+		}
+		t2 := sc2.Out().Tap
+		for _, e := range ParseWire(t2[max(0, bytes.LastIndex(t2, []byte("<stream:stream"))):]).Elems {
+			if e.Start.Name.Local == "iq" && e.Attr("type") == "result" {
+				rc.Evals["C12.c7"]++
+				second := strings.TrimSpace(e.Text())
+				rc.Check("C12.c7", "bind-resource-not-fresh", second != firstAssigned, "two sessions of %q served with the same BindResource value were both assigned %q", origin.Bare().String(), second)
+			}
+		}
+	}()
 	reqSeen, resElem := false, false
 	for _, e := range cw.Elems {
 		if e.Start.Name.Local != "iq" {
@@ -244,6 +278,7 @@ func c12RoundTrip(rc *RC) {
 				if err != nil || !j.Bare().Equal(origin.Bare()) || j.Resourcepart() == "" {
 					rc.Failf("C12.c7", "bind-reply-random-resource", "receiver without callback replied %q, want a random resource of %q", got, origin.Bare().String())
 				}
+				firstAssigned = got
 			case 1, 3:
 				rc.Check("C12.c7", "bind-reply-callback-address", got == assigned.String(), "receiver replied %q, the callback returned %q", got, assigned.String())
 			case 2:
@@ -271,6 +306,9 @@ func c12Headers(rc *RC, sutReceives bool) {
 		accept, strErr bool
 		make           func(from, to string) string
 	}
+	// decoy: attributes in a foreign namespace (or prefix declarations) whose local names are those of the real
+	// header attributes; they come last and must mean nothing
+	decoy := ""
 	mk := func(el, pre, nsDecl, contentNS, version, id string) func(from, to string) string {
 		return func(from, to string) string {
 			var sb strings.Builder
@@ -291,6 +329,7 @@ func c12Headers(rc *RC, sutReceives bool) {
 			if to != "" {
 				fmt.Fprintf(&sb, ` to='%s'`, to)
 			}
+			sb.WriteString(decoy)
 			if ws {
 				sb.WriteString("/>")
 			} else {
@@ -316,6 +355,16 @@ func c12Headers(rc *RC, sutReceives bool) {
 		{"version-garbage", false, false, mk(el, "stream", goodNS, "jabber:client", "abc", "sid1")},
 		{"id-missing", sutReceives, false, mk(el, "stream", goodNS, "jabber:client", "1.0", "")},
 		{"content-ns-unsupported", ws, false, mk(el, "stream", goodNS, "jabber:foo", "1.0", "sid1")},
+		{"id-only-as-prefix-declaration", sutReceives, false, func(from, to string) string {
+			decoy = ` xmlns:id='sid1'`
+			defer func() { decoy = "" }()
+			return mk(el, "stream", goodNS, "jabber:client", "1.0", "")(from, to)
+		}},
+		{"version-only-in-foreign-namespace", false, false, func(from, to string) string {
+			decoy = ` xmlns:x='urn:x' x:version='1.0'`
+			defer func() { decoy = "" }()
+			return mk(el, "stream", goodNS, "jabber:client", "-", "sid1")(from, to)
+		}},
 		{"stream-error", false, true, func(from, to string) string {
 			return `<stream:error xmlns:stream='http://etherx.jabber.org/streams'><host-unknown xmlns='urn:ietf:params:xml:ns:xmpp-streams'/></stream:error>`
 		}},
@@ -323,7 +372,8 @@ func c12Headers(rc *RC, sutReceives bool) {
 	hc := cases[ch.Int("workload", len(cases))]
 	restartCase := ch.Chance("workload", 1, 3)
 	changed := ch.Int("workload", 3) // after the restart: 0 same addresses, 1 different from, 2 different to
-	rc.Describe("headers sutReceives=%v ws=%v case=%s restart=%v changed=%d", sutReceives, ws, hc.name, restartCase, changed)
+	useDecoy := ch.Chance("workload", 1, 2)
+	rc.Describe("headers sutReceives=%v ws=%v case=%s restart=%v changed=%d decoy=%v", sutReceives, ws, hc.name, restartCase, changed, useDecoy)
 	rc.CaseKey = fmt.Sprint("hdr", sutReceives, ws, hc.name, restartCase, changed)
 	cc, sc := rc.Net.Pipe("cli", "srv")
 	ctx, cancel := context.WithTimeout(context.Background(), 30*time.Second)
@@ -388,8 +438,12 @@ func c12Headers(rc *RC, sutReceives bool) {
 			} else if changed == 2 {
 				t = "evil.example.org"
 			}
+			if changed != 0 && useDecoy {
+				decoy = fmt.Sprintf(` xmlns:x='urn:x' x:from='%s' x:to='%s'`, origin.String(), "example.net")
+			}
 			secondSent = true
 			io.WriteString(peerConn, hc.make(f, t))
+			decoy = ""
 			return
 		}
 		// scripted receiver
@@ -416,8 +470,12 @@ func c12Headers(rc *RC, sutReceives bool) {
 		} else if changed == 2 {
 			t = "mallory@example.net"
 		}
+		if changed != 0 && useDecoy {
+			decoy = fmt.Sprintf(` xmlns:x='urn:x' x:from='%s' x:to='%s'`, "example.net", origin.String())
+		}
 		secondSent = true
 		io.WriteString(peerConn, hc.make(f, t))
+		decoy = ""
 		if hc.accept && changed == 0 {
 			io.WriteString(peerConn, featList("urn:verif:none"))
 		}
